@@ -218,7 +218,7 @@ theorem filts_eq (W : Nat) : ∀ D, Deltas.filts (α := α) W D = (List.range (D
     rw [List.range_succ, List.foldl_append, ih]
     simp only [List.foldl_cons, List.foldl_nil]
     have hD : ((List.range (D + 1)).map (Deltas.filt (α := α) W)).getD D [] = Deltas.filt W D := by
-      simp [List.getD_eq_getElem?_getD, List.getElem?_map, List.getElem?_range (Nat.lt_succ_self D)]
+      simp [List.getD_eq_getElem?_getD]
     rw [hD]
     conv_rhs => rw [List.range_succ, List.map_append]
     simp [Deltas.filt]
@@ -230,7 +230,7 @@ theorem filts_drop_one (W D : Nat) :
 
 /-- Kaldi's constructor step is the code's `np.convolve(prev, delta_filter)` (normalising the window
 first or the result afterwards is the same) -/
-theorem nextScales_eq_convolve (W : Nat) (prev : List α) (hp : 1 ≤ prev.length) :
+theorem nextScales_eq_convolve (W : Nat) (prev : List α) (_hp : 1 ≤ prev.length) :
     Kaldi.nextScales W prev = convolve prev (Deltas.baseFilter W) := by
   apply List.ext_getElem?
   intro n
@@ -251,7 +251,7 @@ theorem nextScales_eq_convolve (W : Nat) (prev : List α) (hp : 1 ≤ prev.lengt
         ring
       · have : prev.getD (n - u) 0 = 0 := by
           rw [List.getD_eq_getElem?_getD, List.getElem?_eq_none (by omega)]; rfl
-        simp [h1, h2, this]
+        simp [h1, h2]
     · simp [h1]
   · have h1 : (Kaldi.nextScales W prev)[n]? = none := by
       apply List.getElem?_eq_none; simp [Kaldi.nextScales]; omega
@@ -616,6 +616,35 @@ theorem paddedLen_div (c : Stack α) (T0 : Nat) (hn : 1 ≤ c.numVectors) :
       rw [Nat.mul_add, Nat.mul_one]; omega
     rw [this, Nat.mul_div_cancel_left _ (by omega)]
   · rfl
+
+omit [Inhabited α] in
+/-- with a pad mode the number of frames is `⌈T / n⌉`: all of the input is covered, by less than one
+extra run -/
+theorem frames_some_facts (c : Stack α) (T : Nat) (hn : 1 ≤ c.numVectors) (hpm : c.padMode.isSome = true) :
+    frames c T = (T + c.numVectors - 1) / c.numVectors ∧ T ≤ frames c T * c.numVectors
+      ∧ frames c T * c.numVectors < T + c.numVectors := by
+  have hdm := Nat.div_add_mod T c.numVectors
+  have hml := Nat.mod_lt T (show 0 < c.numVectors by omega)
+  unfold frames
+  simp only [hpm, true_and]
+  generalize hq : T / c.numVectors = q at *
+  generalize hm : T % c.numVectors = m at *
+  generalize c.numVectors = n at *
+  by_cases hrem : m ≠ 0
+  · rw [if_pos hrem]
+    have hceil : (T + n - 1) / n = q + 1 := by
+      have : T + n - 1 = n * (q + 1) + (m - 1) := by rw [Nat.mul_add, Nat.mul_one]; omega
+      rw [this, Nat.mul_add_div (by omega), Nat.div_eq_of_lt (by omega)]
+    refine ⟨hceil.symm, ?_, ?_⟩
+    · rw [Nat.add_mul, Nat.one_mul, Nat.mul_comm]; omega
+    · rw [Nat.add_mul, Nat.one_mul, Nat.mul_comm]; omega
+  · rw [if_neg hrem]
+    have hceil : (T + n - 1) / n = q := by
+      have : T + n - 1 = n * q + (n - 1) := by omega
+      rw [this, Nat.mul_add_div (by omega), Nat.div_eq_of_lt (by omega), Nat.add_zero]
+    refine ⟨hceil.symm, ?_, ?_⟩
+    · rw [Nat.mul_comm]; omega
+    · rw [Nat.mul_comm]; omega
 
 omit [Inhabited α] in
 theorem frames_mul_le (c : Stack α) (T0 : Nat) (hn : 1 ≤ c.numVectors) :
